@@ -3,3 +3,68 @@ From Coq Require Import List NArith Bool Arith String.
 From Atlas Require Import Base.Bytes Diff.Schema Diff.DiffModel Diff.DiffSqlite
   Excl.Glob Excl.Exclude Excl.Skip gen.Gen_SkipKinds.
 Import ListNotations.
+From Atlas Require Import Excl.SkipProofs.
+Local Open Scope list_scope.
+
+(** ** C19_skip.  "A change kind disabled by the diff policy never appears in a change set at
+    any nesting level, while all other changes are still produced."
+
+    For every driver [D] of the generic differ whose TableAttrDiff returns no policy kind
+    (sqlx.Diff.tableDiff appends that result without AddOrSkip), every set [K] of kinds the
+    policy can name (gen/Gen_SkipKinds.v, regenerated from cmdapi/project.go on every run) and
+    every pair of schemas: the change set computed with [DiffSkipChanges(K...)] is the
+    unfiltered change set minus exactly the changes of a kind in K -- top level and inside
+    ModifyTable, a ModifyTable left without changes disappearing -- and no kind of K occurs in
+    it at either level. *)
+Theorem C19_skip :
+  forall (D : DiffDriver) (K : list kind),
+    attr_changes_only D -> Forall (fun k => skippable k = true) K ->
+    forall from to : schema,
+      SchemaDiff D (skip_of K) from to = option_map (remove_kinds K) (SchemaDiff D no_skip from to)
+      /\ (forall r k, SchemaDiff D (skip_of K) from to = Some r -> In k K -> ~ occurs k r)
+      /\ (forall a b, TableDiff D (skip_of K) a b = option_map (filter (keep K)) (TableDiff D no_skip a b)).
+Proof.
+  intros D K HD HK from to. split; [|split].
+  - exact (skip_exact K HK D HD from to).
+  - intros r k Hr Hk. rewrite (skip_exact K HK D HD from to) in Hr.
+    destruct (SchemaDiff D no_skip from to); [|discriminate]. inversion Hr; subst.
+    exact (remove_kinds_absent K l k Hk).
+  - intros a b. exact (TableDiff_skip K HK D HD a b).
+Qed.
+Print Assumptions C19_skip.
+
+(** what "minus exactly" means: every change of another kind survives [remove_kinds] *)
+Theorem C19_skip_others_kept :
+  forall (K : list kind) (cs : list schange),
+    (forall c, In c cs -> mem (kind_of_schange c) K = false -> (forall n ch, c <> ModifyTable n ch) ->
+               In c (remove_kinds K cs))
+    /\ (forall n ch x, In (ModifyTable n ch) cs -> mem KModifyTable K = false -> In x ch -> keep K x = true ->
+               exists ch', In (ModifyTable n ch') (remove_kinds K cs) /\ In x ch' /\ ch' = filter (keep K) ch).
+Proof.
+  intros K cs. split.
+  - intros c. exact (remove_kinds_keeps_top K cs c).
+  - intros n ch x. exact (remove_kinds_keeps_nested K cs n ch x).
+Qed.
+Print Assumptions C19_skip_others_kept.
+
+(** the SQLite driver meets the hypothesis; the generated tables and the hand-written
+    enumeration of kinds agree *)
+Theorem C19_skip_sqlite :
+  attr_changes_only sqlite_driver /\ gen_names_known = true.
+Proof. split; [exact sqlite_attr_changes_only | exact gen_names_known_ok]. Qed.
+Print Assumptions C19_skip_sqlite.
+
+Definition ex_col (n : N) : column := mkColumn [n] 2 [105;110;116]%N false None None None.
+Definition ex_from : schema :=
+  mkSchema [109]%N [mkTable [116]%N false false [ex_col 97; ex_col 98] None
+    [mkIndex [105]%N false [mkPart 0 false (Some [97]%N) None] None None None] [] []].
+Definition ex_to : schema :=
+  mkSchema [109]%N [mkTable [116]%N false false [ex_col 97; ex_col 99] None [] [] []].
+
+Example C19_skip_nonvacuous :
+  Forall (fun k => skippable k = true) [KDropColumn; KDropIndex]
+  /\ SchemaDiff sqlite_driver no_skip ex_from ex_to
+     = Some [ModifyTable [116]%N [DropColumn [98]%N; AddColumn [99]%N; DropIndex [105]%N]]
+  /\ SchemaDiff sqlite_driver (skip_of [KDropColumn; KDropIndex]) ex_from ex_to
+     = Some [ModifyTable [116]%N [AddColumn [99]%N]].
+Proof. split; [repeat constructor | split; vm_compute; reflexivity]. Qed.
